@@ -79,6 +79,10 @@ class ProgApp:
         if delivery == "write+iter":
             write(chunks[0])
             return list(chunks[1:])
+        if delivery == "write+file":
+            # the first piece through the write() callable, the rest as a real file (sendfile path)
+            write(chunks[0])
+            return environ["wsgi.file_wrapper"](self._file(b"".join(chunks[1:])))
         if delivery == "file":
             return environ["wsgi.file_wrapper"](self._file(data))
         if delivery == "file-mid":
@@ -111,8 +115,8 @@ def programs(maxlen, head_method):
                 cls = [None, total, 0] + ([total - 1] if total >= 1 else [])
                 cls = list(dict.fromkeys(cls))
             for cl in cls:
-                for delivery in ("list", "gen", "write", "write+iter", "file", "file-mid", "bytesio"):
-                    if delivery == "write+iter" and not chunks:
+                for delivery in ("list", "gen", "write", "write+iter", "write+file", "file", "file-mid", "bytesio"):
+                    if delivery in ("write+iter", "write+file") and not chunks:
                         continue
                     if status[:3] != "200" and delivery not in ("list", "gen", "file"):
                         continue
